@@ -415,7 +415,7 @@ func genC07Case(rt *rapid.T, avoid func(string) bool) (c07Case, map[string]bool)
 			var r c04Result
 			switch rapid.IntRange(0, 5).Draw(rt, "rescls") {
 			case 5:
-				r.Odd = rapid.SampledFrom([]string{"nil-array", "no-type", "unknown-type", "nil-in-array", "nil-in-big-array"}).Draw(rt, "odd")
+				r.Odd = rapid.SampledFrom([]string{"nil-array", "no-type", "unknown-type", "nil-in-array", "nil-in-big-array", "nil-in-huge-array", "walked-array"}).Draw(rt, "odd")
 			case 0:
 				r.Nil = true
 			case 1:
